@@ -43,6 +43,10 @@ VARTABLE = {
     'Bvec[0]': ('HYDROBASE', 'hydrobase-bvec'),
     'Bvec[1]': ('HYDROBASE', 'hydrobase-bvec'),
     'Bvec[2]': ('HYDROBASE', 'hydrobase-bvec'),
+    # a group of an unknown thorn in which one name is contained in others
+    'K': ('MYCURV', 'mycurv-curvs'),
+    'Kxx': ('MYCURV', 'mycurv-curvs'),
+    'Kxy': ('MYCURV', 'mycurv-curvs'),
 }
 ALLVARS = list(VARTABLE)
 ET_TO_AUREL = {'alp': 'alpha', 'rho': 'rho0', 'trK': 'Ktrace',
